@@ -180,6 +180,19 @@ fn subjects(ctx: &Ctx) -> Vec<Subject> {
         v.push(Subject::Factor(n98, a));
     }
     v.push(Subject::Factor(n90, Algo::Qs));
+    // inputs with factors from the small-primes table (trial division runs before the first
+    // poll; the answer assembled after an early abort must still multiply to n), a prime,
+    // a prime power and a perfect square
+    for a in all {
+        v.push(Subject::Factor(n40 * u("6"), a));
+        v.push(Subject::Factor(n40 * u("4294967296") * u("45"), a));
+    }
+    for a in [Algo::Auto, Algo::Siqs, Algo::Ecm, Algo::Pm1, Algo::Rho] {
+        v.push(Subject::Factor(u("1000003"), a));
+        v.push(Subject::Factor(u("1000003") * u("1000003") * u("1000003"), a));
+        v.push(Subject::Factor(n64 * u("30030"), a));
+        v.push(Subject::Factor(u("1000003") * u("1000003") * u("77"), a));
+    }
     if !ctx.quick() {
         for a in [Algo::Auto, Algo::Mpqs, Algo::Siqs, Algo::Ecm] {
             v.push(Subject::Factor(n110, a));
